@@ -248,7 +248,11 @@ def arr_setitem(I, arr, key, v):
             val = coerce_elem(arr, v)
             n = arr.length
             # bounds: every index must be < n (numpy raises IndexError otherwise)
-            if not skolem_valid(lambda i: mkbool(band(icmp(">=", idxs.at(i), 0), icmp("<", idxs.at(i), n))), idxs.length, "idxbound"):
+            rng_ = getattr(idxs, "elem_range", None)
+            if rng_ is not None:
+                if not ctx().decide(band(icmp(">=", rng_[0], 0), icmp("<=", rng_[1], n))):
+                    raise PyRaise("IndexError", "index array out of bounds")
+            elif not skolem_valid(lambda i: mkbool(band(icmp(">=", idxs.at(i), 0), icmp("<", idxs.at(i), n))), idxs.length, "idxbound"):
                 raise Unsupported("cannot show index array within bounds")
             arr.set_where(lambda i: idxs.member(i), lambda i: val)
             return
@@ -413,6 +417,7 @@ def install(I):
         r = SymArr(mkint(n), lambda i: mkint(iadd(lo, imul(step, i))), "int")
         lo_, step_, hi_ = lo, step, hi
         r.member = lambda i: band(icmp(">=", i, lo_), icmp("<", i, hi_), (zi(isub(i, lo_)) % zi(step_)) == 0)
+        r.elem_range = (lo_, hi_)      # by definition of arange every element lies in [lo, hi)
         return r
 
     reg("arange", np_arange)
